@@ -22,7 +22,7 @@ def make_cases(rng, tier, n):
     cases, stats = [], {}
     for c_i in range(n):
         ns = rng.choice([2, 3, 3, 4] + ([5, 6] if tier == "thorough" else []))
-        c = gen.pipeline_project(rng, "hist-%d" % c_i, ns, tier=tier)
+        c = gen.pipeline_project(rng, "hist-%d" % c_i, ns, tier=tier, lossy=0.3)
         edges = c["edges"]
         names = [sp for sp, st in c["stages"]]
         srcs = {}
@@ -36,10 +36,41 @@ def make_cases(rng, tier, n):
         dirty = set()
         vers = {}
         hist = []
+        srclen = {e[1]: int(e[2].split(":")[2]) for e in c["init"] if e[0] == "file" and e[2].startswith("g:")}
+        lossy = [i for i in srcs if c["stages"][i][1]["cmd"].startswith(b"vlen ")]
         nev = rng.randrange(3, 7 if tier == "quick" else 16)
         for _ in range(nev):
             ev = rng.choice(["edit_src", "edit_src", "edit_def", "damage", "delete", "run_all", "run_all", "run_t", "run_s", "commit_after_run",
-                             "run_commit_run", "partial"])
+                             "run_commit_run", "partial", "edit_ws", "same_len"])
+            if ev == "same_len":
+                # a source of a `vlen` stage gets new bytes of the SAME length: the stage re-runs and reproduces identical
+                # outputs, the commit must still record the new input; then run;commit;run is idle
+                if not lossy:
+                    continue
+                i = rng.choice(lossy)
+                ln = srclen.get(srcs[i], 3) or 3
+                srclen[srcs[i]] = ln
+                ops += [("run", False, []), ("commit", rng.choice("lc"), []),
+                        ("write", srcs[i], "g:%d:%d" % (rng.randrange(100000, 200000), ln)),
+                        ("run", False, []), ("commit", rng.choice("lc"), []), ("run", False, [])]
+                dirty = set()
+                hist.append("same-length-edit")
+                continue
+            if ev == "edit_ws":
+                # the command changes in white space only, INSIDE the line: a different definition, the stage is stale
+                i = rng.randrange(ns)
+                sp, st = c["stages"][i]
+                cur = st["cmd"]
+                for o_ in reversed(ops):
+                    if o_[0] == "setcmd" and o_[1] == sp:
+                        cur = o_[2]
+                        break
+                toks = cur.split(b" ")
+                k_ = rng.randrange(1, len(toks))
+                new = b" ".join(toks[:k_]) + rng.choice([b"  ", b"   ", b"    "]) + b" ".join(toks[k_:])
+                ops.append(("setcmd", sp, new))
+                dirty.add(i)
+                continue
             if ev == "partial":
                 # regenerate and commit one stage on its own (everything else was consistent and committed before)
                 cand = [i for i in srcs if downstream(edges, [i])]
@@ -63,13 +94,20 @@ def make_cases(rng, tier, n):
                 continue
             if ev == "edit_src" and srcs:
                 i = rng.choice(list(srcs))
-                ops.append(("write", srcs[i], "g:%d:%d" % (rng.randrange(100000), rng.choice([1, 4, 30]))))
+                ln = rng.choice([1, 4, 30])
+                srclen[srcs[i]] = ln
+                ops.append(("write", srcs[i], "g:%d:%d" % (rng.randrange(100000), ln)))
                 dirty |= consumers[srcs[i]]
             elif ev == "edit_def":
                 i = rng.randrange(ns)
                 sp, st = c["stages"][i]
                 vers[i] = vers.get(i, 0) + 1
-                toks = st["cmd"].split()
+                cur = st["cmd"]
+                for o_ in reversed(ops):
+                    if o_[0] == "setcmd" and o_[1] == sp:
+                        cur = o_[2]
+                        break
+                toks = cur.split()
                 toks[1] = b"S%dv%d" % (i, vers[i])
                 ops.append(("setcmd", sp, b" ".join(toks)))
                 dirty.add(i)
